@@ -136,9 +136,29 @@ class _Ufunc(Contract):
                     ("NumPy broadcasting: the result is 0-d exactly when every operand is", sc == all0d)]
         if not N.is_unyt_array(r):
             return [("out=: the target receives the result", N.is_array(r) and N.arr_buf(r) is N.arr_buf(t))]
-        return [("out=: the returned object is backed by the target's memory", N.arr_buf(r) is N.arr_buf(t)),
+        post = [("out=: the returned object is backed by the target's memory", N.arr_buf(r) is N.arr_buf(t)),
                 ("out=: the target is relabelled with the result's unit",
                  t.fields["units"] is r.fields["units"])]
+        ts = self.target_snapshot(a)
+        if ts is not None:
+            b = N.arr_buf(t)
+            was_float = z3.Or(to_z3(ts["kind"]) == N.sv("f"), to_z3(ts["kind"]) == N.sv("c"))
+            post.append(("out=: a floating-point or complex target keeps its dtype (only integer targets are "
+                         "re-typed)", z3.Implies(was_float, z3.And(to_z3(b.kind) == to_z3(ts["kind"]),
+                                                                   to_z3(b.itemsize) == to_z3(ts["itemsize"])))))
+        return post
+
+    def target_snapshot(self, a):
+        """entry snapshot of the out= target (kept by snapshot())"""
+        snaps = getattr(self, "_snaps", None)
+        if snaps is None or a.target is None:
+            return None
+        ti = self.target_index()
+        if ti is not None:
+            return snaps[ti]
+        if self.out in ("o", "v0", "v1"):
+            return snaps[-1]
+        return None
 
     def track(self, it, a):
         for n, o in enumerate(a.inputs):
@@ -184,6 +204,7 @@ class _Ufunc(Contract):
         snaps = [snapshot_array(o) if N.is_array(o) else None for o in a.inputs]
         if self.out in ("o", "v0", "v1"):
             snaps.append(snapshot_array(a.target))
+        self._snaps = snaps
         return snaps
 
     def frames(self, a, old, raising=False):
